@@ -263,22 +263,17 @@ func init() {
 	pd.RequiredProbes = append(pd.RequiredProbes, "fingerprint-taken", "regime-addon-cross-pair", "slots-interleaved")
 }
 
-var (
-	baseFP   *Fingerprint
-	baseFPmu sync.Mutex
-)
-
 func execShared(x *X) {
-	baseFPmu.Lock()
-	if baseFP == nil {
-		baseFP = TakeFingerprint()
-	}
-	base := baseFP
-	baseFPmu.Unlock()
 	doc, addon := x.P.Str["doc"], x.P.Str["addon"]
 	if addon != "" {
 		x.Probe("regime-addon-cross-pair")
 	}
+	// Bring "most recently used" style state into a canonical position first, so that what a
+	// run observes does not depend on the runs executed before it in this process (and the
+	// replay in a fresh process sees the same thing).
+	_ = runItem(x.C, "note/examples/message", "", "build")
+	_ = runItem(x.C, "examples/es/party", "", "validate")
+	base := TakeFingerprint()
 	for i, op := range x.P.Ops {
 		x.Entropy(op.ID)
 		out := runItem(x.C, doc, addon, op.K)
@@ -294,11 +289,7 @@ func execShared(x *X) {
 			}
 		}
 		if diff := base.Diff(fp); len(diff) > 0 {
-			x.Violate("shared-state-written:"+strings.Join(diff, ","), "operation %s on %s (addons replaced by %q) changed package-level definitions that must be read-only after init: %v (a write into shared state, e.g. an append into a shared slice's spare capacity); outcome of the operation: %s", op.K, doc, addon, diff, out)
-			// the change is permanent in this process: adopt it so that other variables are still watched
-			baseFPmu.Lock()
-			baseFP = fp
-			baseFPmu.Unlock()
+			x.Violate("shared-state-written:"+strings.Join(diff, ","), "operation %s on %s (addons replaced by %q) changed package-level state that must be read-only after init: %v (a write into shared definitions or a shared cache, e.g. an append into a shared slice's spare capacity); outcome of the operation: %s", op.K, doc, addon, diff, out)
 			return
 		}
 		x.Step(i, "caller", op.K, out)
